@@ -1186,12 +1186,18 @@ func (root *Root) Unsubscribe(id string) (cnt int) {
 // for the subscription is used to form a result based on the type of event
 // being published.
 func (root *Root) AddEvent(id string, event interface{}) (cnt int, err error) {
-	vars := map[string]interface{}{}
 	var ea []error
 	var failed []*Subscription
 	root.subLock.Lock()
 	for _, s := range root.subscriptions {
 		if s.sub.Match(id) {
+			// The selection set is applied with the values the variables had
+			// in the subscription request. A copy for each event, input
+			// coercion fills in defaults in place.
+			vars, _ := copyDefault(s.vars).(map[string]interface{})
+			if vars == nil {
+				vars = map[string]interface{}{}
+			}
 			result, ea2 := root.resolve(event, vars, s.field, s.etype, MaxResolveDepth)
 			ea = append(ea, ea2...)
 			cnt++
